@@ -4,11 +4,12 @@ from fractions import Fraction
 from .. import gen as G, num
 from ..core import Case, TOL, finite
 from .common import flat_op, flat_sx, fr, split_op, split_sx, wf_simplex_fail
-from .c08 import table, exact_mbr
+from .c08 import table, exact_mbr, special_table
 
 RULE = ("well-formed antecedents (any base rate, zeros included; absolute and vacuous ones mixed in) x conditional "
         "tables with at least one informative conditional of positive base rate, |X| 2..4 and 2-D product antecedents "
-        "(2x3, 3x2, 2x2), |Y| 2..3, dyadic grids and random floats; deduce and deduce_with; every container family, "
+        "(2x3, 3x2, 2x2), |Y| 2..3, dyadic grids and random floats, plus the tables at the edge of the marginal base rate's "
+        "domain (all vacuous, informative only at zero base rates, tiny and extremely tiny total weight); deduce and deduce_with; every container family, "
         "owned / borrowed antecedent and borrowed conditional tables, f32/f64; non-trivial = antecedent neither vacuous "
         "nor absolute")
 NONE_KINDS = ("NONE",)
@@ -39,8 +40,13 @@ def gen(rng, tier):
                 else:
                     kind = rng.choice([None, None, None, None, "vac", "abs", "dog"])
                     w = G.grid_opinion(rng, nx, den, kind)
-                cn = sum((flat_sx(c) for c in cs), [])
                 tag = mode + ("" if len(xs) == 1 else "_2d")
+                if mode == "grid" and i % 6 == 5:
+                    # tables at the edges of the marginal base rate's domain (shared with C08)
+                    ax, cs, tag0 = special_table(rng, ty, nx, ny, den, rng.below(4))
+                    w = (w[0], w[1], ax)
+                    tag = tag0 + ("" if len(xs) == 1 else "_2d")
+                cn = sum((flat_sx(c) for c in cs), [])
                 if len(xs) == 1:
                     fam = rng.choice(FAMS)
                     st = rng.choice(["own", "ref", "borrowed"])
